@@ -647,24 +647,31 @@ func replyDelUser(s *Session, msg *ClientComMessage) {
 	globals.hub.unreg <- &topicUnreg{forUser: uid, del: msg.Del.Hard, done: done}
 	<-done
 
-	// Notify users of interest that the user is gone.
-	if uoi, err := store.Users.GetSubs(uid); err == nil {
-		presUsersOfInterestOffline(uid, uoi, "gone")
-	} else {
-		logs.Warn.Println("replyDelUser: failed to send notifications to users", err, s.sid)
+	// Read what the notifications need while the records are still there: the user's subscriptions and
+	// the subscribers of the group topics where the user is the owner.
+	type topicSubs struct {
+		name string
+		subs []types.Subscription
 	}
-
-	// Notify subscribers of the group topics where the user was the owner that the topics were deleted.
-	if ownTopics, err := store.Users.GetOwnTopics(uid); err == nil {
-		for _, topicName := range ownTopics {
-			if subs, err := store.Topics.GetSubs(topicName, nil); err == nil {
-				presSubsOfflineOffline(topicName, types.TopicCatGrp, subs, "gone", &presParams{}, s.sid)
-			} else {
-				logs.Warn.Println("replyDelUser: failed to notify topic subscribers", err, topicName, s.sid)
+	var ownTopicSubs []topicSubs
+	uoi, err := store.Users.GetSubs(uid)
+	if err == nil {
+		var ownTopics []string
+		if ownTopics, err = store.Users.GetOwnTopics(uid); err == nil {
+			for _, topicName := range ownTopics {
+				var subs []types.Subscription
+				if subs, err = store.Topics.GetSubs(topicName, nil); err != nil {
+					break
+				}
+				ownTopicSubs = append(ownTopicSubs, topicSubs{topicName, subs})
 			}
 		}
-	} else {
-		logs.Warn.Println("replyDelUser: failed to send notifications to owned topics", err, s.sid)
+	}
+	if err != nil {
+		// Those who must be told cannot be found: the account stays.
+		logs.Warn.Println("replyDelUser: failed to read subscriptions", err, s.sid)
+		s.queueOut(decodeStoreError(err, msg.Id, msg.Timestamp, nil))
+		return
 	}
 
 	// TODO: suspend all P2P topics with the user.
@@ -674,6 +681,14 @@ func replyDelUser(s *Session, msg *ClientComMessage) {
 		logs.Warn.Println("replyDelUser: failed to delete user", err, s.sid)
 		s.queueOut(decodeStoreError(err, msg.Id, msg.Timestamp, nil))
 		return
+	}
+
+	// The account is gone. Notify users of interest that the user is gone.
+	presUsersOfInterestOffline(uid, uoi, "gone")
+
+	// Notify subscribers of the group topics where the user was the owner that the topics were deleted.
+	for _, ts := range ownTopicSubs {
+		presSubsOfflineOffline(ts.name, types.TopicCatGrp, ts.subs, "gone", &presParams{}, s.sid)
 	}
 
 	s.queueOut(NoErr(msg.Id, "", msg.Timestamp))
